@@ -1,12 +1,15 @@
 """Run one script on the real compiler + loader + VM against the simulated LAN
 and collect everything the monitors saw."""
-from bvf import env, simnet
+from bvf import env, simnet, vmmon
 from bardolph.controller.script_job import ScriptJob
+
+vmmon.install_loader_hook()
 
 
 class Run:
     __slots__ = ('accepted', 'errors', 'log', 'stops', 'thread_exc', 'range',
-                 'job', 'compile_exc', 'budget_exhausted')
+                 'job', 'compile_exc', 'budget_exhausted', 'mon',
+                 'image_faults', 'fp_changed')
 
     def dev_events(self, ok_only=False):
         return [e for e in self.log if e[0] in ('dev', 'lan')
@@ -37,7 +40,8 @@ def install_budget(job, r, budget):
         table[op] = counted
 
 
-def run_script(text, decisions=None, keep_job=False, job=None, budget=100000):
+def run_script(text, decisions=None, keep_job=False, job=None, budget=100000,
+               monitor=False, mon=None):
     """Compile `text` in a fresh ScriptJob (or re-run `job`) and execute it."""
     env.reset_monitors()
     if decisions is not None:
@@ -45,6 +49,9 @@ def run_script(text, decisions=None, keep_job=False, job=None, budget=100000):
     r = Run()
     r.compile_exc = None
     r.job = None
+    r.mon = None
+    r.image_faults = []
+    r.fp_changed = False
     if job is None:
         try:
             job = ScriptJob.from_string(text)
@@ -59,8 +66,25 @@ def run_script(text, decisions=None, keep_job=False, job=None, budget=100000):
     r.budget_exhausted = False
     if r.accepted:
         simnet.reset_log()
-        install_budget(job, r, budget)
+        before = None
+        if mon is not None:            # re-run of an already monitored job
+            r.mon = mon
+        elif monitor:
+            r.mon = vmmon.attach(job, step_limit=budget * 4)
+        else:
+            install_budget(job, r, budget)
+        if r.mon is not None:
+            r.mon.calls, r.mon.loops, r.mon.steps = [], 0, 0
+            r.mon.exhausted = False
+            r.mon.run_jumps = set()
+            before = vmmon.fingerprint(job.program)
+        vmmon.LAST_LOAD.clear()
         job.execute()
+        r.image_faults = list(vmmon.LAST_LOAD.get('faults') or [])
+        if r.mon is not None:
+            r.budget_exhausted = r.mon.exhausted
+            r.mon.finish(stopped=bool(env.MACHINE_STOPS))
+            r.fp_changed = before != vmmon.fingerprint(job.program)
     r.log = list(simnet.LOG)
     r.stops = list(env.MACHINE_STOPS)
     r.thread_exc = list(env.THREAD_EXCEPTIONS)
